@@ -1,13 +1,24 @@
 from xdsl.context import Context
 from xdsl.dialects import builtin, scf
 from xdsl.dialects.memref import DeallocOp
-from xdsl.ir import Operation
+from xdsl.ir import Block, Operation
 from xdsl.passes import ModulePass
 from xdsl.rewriter import InsertPoint, Rewriter
 
 from snaxc.accelerators.acc_context import AccContext
 from snaxc.dialects import snax
 from snaxc.util.dispatching_rules import dispatch_to_compute, dispatch_to_dm
+
+
+def is_nested_in(op: Operation, block: Block) -> bool:
+    """Check whether the operation lies in the block, directly or nested in one of its ops"""
+    parent = op.parent_block()
+    while parent is not None:
+        if parent is block:
+            return True
+        parent_op = parent.parent_op()
+        parent = parent_op.parent_block() if parent_op is not None else None
+    return False
 
 
 class InsertSyncBarrier(ModulePass):
@@ -32,12 +43,17 @@ class InsertSyncBarrier(ModulePass):
                 sync_op = snax.ClusterSyncOp()
                 rewriter.insert_op(sync_op, InsertPoint.before(op_in_module))
 
-                # clear the list
-                ops_to_sync = []
+                # a barrier is only on the path to the ops of its own block (the other
+                # branch of an scf.if, the ops behind a loop are reached without it)
+                sync_block = sync_op.parent_block()
+                assert sync_block is not None
+                ops_to_sync = [x for x in ops_to_sync if not is_nested_in(x, sync_block)]
 
             if isinstance(op_in_module, snax.ClusterSyncOp):
-                # synchronisation ok, clear list
-                ops_to_sync: list[Operation] = []
+                # synchronisation ok for the ops of the barrier's own block
+                sync_block = op_in_module.parent_block()
+                assert sync_block is not None
+                ops_to_sync: list[Operation] = [x for x in ops_to_sync if not is_nested_in(x, sync_block)]
 
             # check all operands of current op
             for operand in [*op_in_module.operands, *op_in_module.results]:
